@@ -148,7 +148,7 @@ def concretize(model, nondets, literals):
                 c, n = int(args[0]), int(v)
             except ValueError:
                 continue
-            if c in strs and c not in code2lit and c not in forced and len(strs[c].encode()) < n <= 200000:
+            if c in strs and c not in code2lit and c not in forced and len(strs[c].encode()) < n <= (1 << 20):
                 core = strs[c].strip(" ")
                 pad = "x" * (n - len(strs[c].encode()))
                 strs[c] = strs[c].replace(core, core + pad, 1) if core else strs[c] + pad
@@ -165,6 +165,27 @@ def concretize(model, nondets, literals):
             strs[c] = " " * ws
         elif t in strs:
             strs[c] = " " + strs[t] + " "
+
+    # case-mapping facts: toupper(x) = y  =>  x := lower-case spelling of y (and v.v.), derived
+    # back-to-front through trim chains
+    for _pass in range(3):
+        for name, args, v in ufs:
+            if name not in ("toupper", "tolower"):
+                continue
+            try:
+                a, b = int(args[0]), int(v)
+            except ValueError:
+                continue
+            if a == b or a in code2lit or a in forced or b not in strs:
+                continue
+            want = strs[b].lower() if name == "toupper" else strs[b].upper()
+            if (want.upper() if name == "toupper" else want.lower()) == strs[b]:
+                strs[a] = want
+        for c, t in trim.items():
+            if c in code2lit or c in forced or t == c:
+                continue
+            if t != 0 and t in strs:
+                strs[c] = " " + strs[t] + " "
 
     values = {}
     for n, k in nondets.items():
